@@ -159,7 +159,7 @@ def run(tier):
         for (what, got, exp) in probs:
             edge = "band_end_on_grid_point" if (c["hi2"] % 2 == 0 and c["hi2"] // 2 in c["f"]) or (c["lo2"] % 2 == 0 and c["lo2"] // 2 in c["f"]) else "band_end_between_points"
             V.violation(f"{PID}|replay|{what}|{edge}", {"kind": "rms_case", "case": c, "message": f"band ({c['lo2']/2}, {c['hi2']/2}) on grid {c['f']} with ASD^2 {c['v']}: {what}: got rms^2 {got}, exact {exp}"})
-    rw = tlc.run_model("DfWrapper", f"{PID}_wrapper", constants=dict(NRows=12, EmitCases=True), invariants=["OnlySelectedNumeric", "Emit"])
+    rw = tlc.run_model("DfWrapper", f"{PID}_wrapper", constants=dict(NRows=12, EmitCases=True), invariants=["OnlySelectedNumeric", "ChainShiftsOnce", "DuplicateSelectionIsIdempotent", "Emit"])
     V.model(rw, "DfWrapper.tla (df_detrend rows)")
     wc = [w for w in rw.json_prints() if w["cfg"]["fn"] == "detrend"]
     for w, probs in zip(wc, common.pmap(wrapper_case, wc, chunksize=4)):
